@@ -159,6 +159,9 @@ var (
 	// exported driver.Shared, wrap / override entries.
 	custom   driver.Base
 	customOK bool
+	// sparse is a user driver that only knows a few operators: renders of anything else
+	// fail in the middle of the tree
+	sparse driver.Base
 	// sharedMapDrv is what a caller gets who passes the exported table itself:
 	// driver.Base{RenderFNs: driver.Shared}. Whatever the library writes into a
 	// driver's map would land in the exported package-level table.
@@ -185,6 +188,10 @@ func ensureDrivers(cold bool) {
 	if !customOK {
 		custom = buildCustom()
 		sharedMapDrv = driver.Base{RenderFNs: driver.Shared}
+		sparse = driver.Base{RenderFNs: map[expr.Operator]driver.RenderFN{}}
+		for _, op := range []expr.Operator{expr.Literal, expr.And, expr.Or, expr.Equals, expr.Not} {
+			sparse.RenderFNs[op] = wrapFN(driver.Shared[op])
+		}
 		customOK = true
 	}
 	if !cold && !sharedDrvOK {
@@ -231,6 +238,112 @@ func wrapFN(fn driver.RenderFN) driver.RenderFN {
 	}
 }
 
+// editPrint: the tree is private to this operation, so the caller may legally edit it
+// between two uses. Whatever the library remembered about the tree from the first
+// use must not leak into the second: printing/rendering the edited tree has to give
+// what a freshly built structural clone of it gives.
+func editPrint(e *expr.Expression, canon func(func() string) string) string {
+	if e == nil {
+		return "editprint:nil"
+	}
+	d := driver.NewPostgresDriver()
+	first := func(x *expr.Expression) string {
+		s1 := guarded(func() string { return x.String() })
+		g1 := guarded(func() string { return fmt.Sprintf("%#v", x) })
+		r1 := guarded(func() string { s, err := d.Render(x); return s + "|" + errText(err) })
+		p1 := guarded(func() string { s, ps, err := d.RenderParam(x); return s + "|" + canonParams(ps) + "|" + errText(err) })
+		v1 := guarded(func() string { return errText(expr.Validate(x)) })
+		return s1 + "\x00" + g1 + "\x00" + r1 + "\x00" + p1 + "\x00" + v1
+	}
+	before := first(e)
+	edited := editLeaf(e, 0)
+	after := first(e)
+	var fresh string
+	canon(func() string { fresh = first(cloneExpr(e)); return "" })
+	if after != fresh {
+		return "editprint:STALE after=" + strconv.Quote(after) + " fresh-clone=" + strconv.Quote(fresh)
+	}
+	return "editprint:ok edited=" + strconv.FormatBool(edited) + " " + strconv.Quote(before) + " -> " + strconv.Quote(after)
+}
+
+// editLeaf changes the first string / int leaf it finds (depth first): a legal edit of exported fields.
+func editLeaf(e *expr.Expression, depth int) bool {
+	if e == nil || depth > 50 {
+		return false
+	}
+	switch v := e.Left.(type) {
+	case string:
+		e.Left = v + "_e"
+		return true
+	case int:
+		e.Left = v + 1
+		return true
+	case *expr.Expression:
+		if editLeaf(v, depth+1) {
+			return true
+		}
+	case []*expr.Expression:
+		for _, x := range v {
+			if editLeaf(x, depth+1) {
+				return true
+			}
+		}
+	}
+	switch v := e.Right.(type) {
+	case *expr.Expression:
+		return editLeaf(v, depth+1)
+	case *expr.RangeBoundary:
+		if v != nil {
+			if m, ok := v.Min.(*expr.Expression); ok && editLeaf(m, depth+1) {
+				return true
+			}
+			if m, ok := v.Max.(*expr.Expression); ok && editLeaf(m, depth+1) {
+				return true
+			}
+		}
+	}
+	return false
+}
+
+// cloneExpr builds a structural clone: new nodes, same exported values, the two
+// operator-specific private numbers copied through their offsets, nothing else.
+func cloneExpr(e *expr.Expression) *expr.Expression {
+	if e == nil {
+		return nil
+	}
+	n := new(expr.Expression)
+	n.Op = e.Op
+	n.Left = cloneAny(e.Left)
+	n.Right = cloneAny(e.Right)
+	setPriv(n, privBoost(e), privFuzzy(e))
+	return n
+}
+
+func cloneAny(v any) any {
+	switch x := v.(type) {
+	case *expr.Expression:
+		if x == nil {
+			return x
+		}
+		return cloneExpr(x)
+	case []*expr.Expression:
+		if x == nil {
+			return x
+		}
+		out := make([]*expr.Expression, len(x))
+		for i, el := range x {
+			out[i] = cloneExpr(el)
+		}
+		return out
+	case *expr.RangeBoundary:
+		if x == nil {
+			return x
+		}
+		return &expr.RangeBoundary{Min: cloneAny(x.Min), Max: cloneAny(x.Max), Inclusive: x.Inclusive}
+	}
+	return v
+}
+
 // docBytes returns ONE byte slice per distinct JSON document of the current scenario,
 // shared by every task that decodes it (callers do keep request bodies around and
 // decode them from several goroutines). The library must only read it; runScenario
@@ -254,7 +367,13 @@ func docBytes(doc string) []byte {
 // keeps: oracle O6 calls it after everything else has run — a returned value
 // that later changes was aliasing state the library went on using.
 func doCall(op *Op, e *expr.Expression, canon func(func() string) string) (string, func() string) {
+	if op.Copy && e != nil {
+		cp := *e // a caller may copy the struct: the copy shares its children with the original
+		e = &cp
+	}
 	switch op.Kind {
+	case KEditPrint:
+		return editPrint(e, canon), nil
 	case KParse:
 		var x *expr.Expression
 		var err error
@@ -323,10 +442,20 @@ func doCall(op *Op, e *expr.Expression, canon func(func() string) string) (strin
 		f := func() string { return strconv.Quote(s) + "|" + canonParams(ps) + "|" + errText(err) }
 		return canon(f), f
 	case KCRender:
+		if op.Sparse {
+			s, err := sparse.Render(e)
+			f := func() string { return strconv.Quote(s) + "|" + errText(err) }
+			return f(), f
+		}
 		s, err := custom.Render(e)
 		f := func() string { return strconv.Quote(s) + "|" + errText(err) }
 		return f(), f
 	case KCRenderParam:
+		if op.Sparse {
+			s, ps, err := sparse.RenderParam(e)
+			f := func() string { return strconv.Quote(s) + "|" + canonParams(ps) + "|" + errText(err) }
+			return canon(f), f
+		}
 		s, ps, err := custom.RenderParam(e)
 		f := func() string { return strconv.Quote(s) + "|" + canonParams(ps) + "|" + errText(err) }
 		return canon(f), f
